@@ -33,7 +33,30 @@ var tokNames = map[int]string{
 }
 
 // scanAll drives the real Scanner token by token, as Lexer.Lex does, up to EOF or the first error.
+// scanAll runs the scanner over src in its own goroutine: a Scan call that never returns (a loop that stops
+// advancing at the end of the text) is reported instead of hanging the stream
 func scanAll(src string) (line string, panicked interface{}) {
+	type res struct {
+		line string
+		p    interface{}
+	}
+	ch := make(chan res, 1)
+	go func() {
+		l, p := scanAllSync(src)
+		ch <- res{l, p}
+	}()
+	select {
+	case r := <-ch:
+		return r.line, r.p
+	case <-time.After(10 * time.Second):
+		scanHangs++
+		return "SCAN-DOES-NOT-RETURN", nil
+	}
+}
+
+var scanHangs int
+
+func scanAllSync(src string) (line string, panicked interface{}) {
 	defer func() {
 		if p := recover(); p != nil {
 			panicked = p
@@ -198,6 +221,13 @@ func streamLex(o *Out, r *rand.Rand, n int, thorough bool) {
 		if p != nil {
 			o.Fail(Failure{Oracle: "scanner-total", Key: "scan-panic", Input: src, Detail: fmt.Sprint(p)})
 		} else {
+			if line == "SCAN-DOES-NOT-RETURN" {
+				o.Fail(Failure{Oracle: "scanner-total", Key: "scan-does-not-terminate", Input: src, Detail: "a call of Scan had not returned after 10 s"})
+				if scanHangs >= 3 {
+					break // each further one costs 10 s and leaves a spinning goroutine behind
+				}
+				continue
+			}
 			if strings.Contains(line, "NO-PROGRESS") {
 				o.Fail(Failure{Oracle: "scanner-total", Key: "scan-no-progress", Input: src, Detail: "Scan keeps returning tokens without reaching EOF"})
 			}
